@@ -32,6 +32,16 @@ def kq(name, entry, ac, bc, radix4, **kw):
                  bound="%d-digit by %d-digit operands, all digit values, radix 2^%d" % (ac, bc, 4 if radix4 else 32), **kw)
 
 
+# (KA, KB, extra defs, name tag, query options)
+# NOT REGISTERED (empty on purpose): h_mod of c11_api.c (bintMod/bintModi against 64/128-bit remainder, xxModDouble by
+# contract) gave no verdict -- symbolic execution does not finish within 150-900 s for any representation pair
+# (imm/imm included): bintMod negates its operands through bintNegate, whose result is an if-then-else of a stored and
+# an immediate value, so every later IsImmed()/Placec() test forks and the Horner loop of bintModi and (for stored
+# moduli) iintDivide are unrolled over symbolic digit counts.  See DESIGN.md section 6 (C11, bintMod).
+MODQ = [
+]
+
+
 def queries(ctx, extra):
     qs = []
     # ---- production radix, linear kernels
@@ -103,4 +113,11 @@ def queries(ctx, extra):
             heavy = dict(timeout=1800, mem_gb=14, tiers=("quick", "thorough") if ka in (7, 8) else ("thorough",))
             qs.append(aq("plus", "h_plus", ka, kb, unwindset=["bintPlus:%d" % pP, "bintMinus:%d" % pM], **heavy))
             qs.append(aq("minus", "h_minus", ka, kb, unwindset=["bintPlus:%d" % mP, "bintMinus:%d" % mM], **heavy))
+    # bintMod: dispatch between bintModi (Horner, single word) and bintDivide.  Representation and the bit length
+    # class of the modulus are concrete per query, values symbolic.
+    MOD = ["-DV_MOD"]
+    for ka, kb, extra_defs, tag, kw in MODQ:
+        q = aq("mod" + tag, "h_mod", ka, kb, **kw)
+        q.defs = q.defs + MOD + extra_defs
+        qs.append(q)
     return qs
